@@ -581,6 +581,73 @@ def rule_xref(c, prog, d):
         c.violation(R, "enums|" + ",".join(sorted(bad)[:3]), f"enum tables differ between the two databases for {sorted(bad)[:5]}", "rbx_dom_lua/src/database.json", instance="enums")
 
 
+def default_type_pairs(d):
+    """{(type of a default value, type its property is serialized as): example `Class.Prop`} for the pairs that differ"""
+    out = {}
+    for key, cl in sorted(d.classes.items()):
+        for dk, (vk, _payload) in sorted(cl.defaults.items()):
+            p = d.find_prop(key, dk)
+            if p is None:
+                continue
+            canon = p
+            if p.kind == "Alias":
+                canon = d.classes[p.cls.key].props.get(p.alias_for) or p
+            stype = canon.vtype()
+            if canon.ser == "SerializesAs":
+                sp = d.classes[canon.cls.key].props.get(canon.ser_as)
+                if sp is not None:
+                    stype = sp.vtype()
+            if vk != stype and stype:
+                out.setdefault((vk, stype), f"{key}.{dk}")
+    return out
+
+
+def rule_accept(c, prog, d, R="C16.accept"):
+    """The database holds defaults whose value type is not the type their property serializes as (an Attributes map for
+    a BinaryString-typed AttributesSerialize, Tags, MaterialColors …).  rbx_xml's conversion turns some (from, to) pairs
+    into the target type and hands every other value back unchanged; the writer then writes the value by its OWN type.
+    A test in the writer that insists on `value.ty() == <descriptor type>` after the conversion refuses every such
+    default — the classes that carry one can no longer be written."""
+    c.rule(R, "XML writer: after the conversion step no exit of the property loop insists that the value's type equals the serialized descriptor's type, as long as the database has defaults of another type that the conversion hands back unchanged (decided on the database's own (value type, serialized type) pairs)")
+    from . import C06 as _C06
+    pairs = default_type_pairs(d)
+    conv = common.find_fn(prog, r"conversion::ConvertVariant>::try_convert_cow$|conversion::ConvertVariant for .*>::try_convert_cow$")
+    m = tables.top_match(conv)
+    converted = set()
+    for arm in m["arms"]:
+        pt = arm["pat"]
+        if pt.get("k") == "Tuple" and len(pt["pats"]) == 2:
+            for x in _C06.variants_of(pt["pats"][0]):
+                for y in _C06.variants_of(pt["pats"][1]):
+                    if x != "_" and y != "_":
+                        converted.add((x, y))
+    untouched = {k: v for k, v in pairs.items() if k not in converted}
+    fn = prog.fn("rbx_xml::serializer::serialize_instance")
+    gates = []
+    for n in core.walk_fn(fn, into_closures=False):
+        if n.get("k") != "If":
+            continue
+        cnd = core.strip(n["c"])
+        if cnd.get("k") != "Binary" or cnd.get("op") not in ("==", "!="):
+            continue
+        sides = [core.strip(cnd["l"]), core.strip(cnd["r"])]
+        tys = [x for x in sides if x.get("k") == "MethodCall" and x["m"] == "ty" and not x["args"]]
+        others = [x for x in sides if x not in tys and "VariantType" in (x.get("ty") or "")]
+        if len(tys) != 1 or len(others) != 1:
+            continue
+        mismatch_branch = n["t"] if cnd["op"] == "!=" else n.get("f")
+        if mismatch_branch is not None and any(y.get("k") == "Ret" and "Err" in core.fingerprint(y.get("e", {}), 3) for y in core.walk(mismatch_branch)):
+            gates.append(n)
+    c.sample({"rule": R, "default_pairs_differing": {f"{a}->{b}": ex for (a, b), ex in sorted(pairs.items())}, "handed_back_unchanged": sorted(f"{a}->{b}" for a, b in untouched), "type_gates": len(gates)})
+    c.floor(R, len(pairs), 1, "(default value type, serialized type) pairs that differ in the database")
+    inst = "xml-writer:no-type-gate-after-conversion"
+    if gates and untouched:
+        (a, b), ex = sorted(untouched.items())[0]
+        c.violation(R, "xml-writer|type-gate", f"serialize_instance returns an error when the (converted) value's type is not the serialized descriptor's type; the database's own defaults include {len(untouched)} such pair(s) the conversion hands back unchanged — e.g. {ex} is a {a} under a property serialized as {b}: every class carrying such a default can no longer be written to XML", core.loc(gates[0]), instance=inst)
+    else:
+        c.ok(R, inst)
+
+
 def run(c, prog):
     d = dbm.Database()
     c.analysed["database"] = {"classes": len(d.classes), "properties": sum(len(x.props) for x in d.classes.values()), "enums": len(d.enums),
@@ -592,6 +659,7 @@ def run(c, prog):
     rule_gen(c, prog)
     rule_closed(c, prog, d)
     rule_xref(c, prog, d)
+    rule_accept(c, prog, d)
     from . import C06
     C06.rule_desc(core.Alias(c, "C16"), prog)
     C06.rule_name(core.Alias(c, "C16"), prog)     # the one lookup the XML reader performs for every instance: `Name`
